@@ -21,7 +21,8 @@ def _contracts():
 FOUND = []
 
 ERR_SOURCES = ['#(', '#let x = (1,', '$ x', '*bold', '#{ let }', '#f(a b)', '  #(  \n\n', '#(\t']
-OK_SOURCES = ['', 'a', '#let x = 1', '= Head\n\n  - item  \n', '```\nraw  \n```', '#{\n  let a = 1\n\n  let b = 2\n}', '/* c  \n*/']
+OK_SOURCES = ['', 'a', '#let x = 1', '= Head\n\n  - item  \n', '```\nraw  \n```', '#{\n  let a = 1\n\n  let b = 2\n}', '/* c  \n*/',
+              '// c\t\n', '/* c\t\n*/\n', '```\nraw\t\n```\n', 'a\u3000\nb\n', 'a\u00a0\n', '// c\x0c\nx\n', 'a // c\u2003']
 
 
 def native_confirm(S):
@@ -54,6 +55,11 @@ def native_confirm(S):
 
 def report(S):
     if not FOUND:
+        # the corpus must agree with the solver's verdict on this tree (guards the corpus itself)
+        w = native_confirm(S)
+        S.validation['libskel_native_corpus'] = 'clean' if not w else w['what']
+        if w:
+            S.inconclusive.append('library skeleton: the native corpus shows a deviation the solver-decided units do not explain: %s' % w['what'])
         return
     w = native_confirm(S)
     for lab in sorted(set(FOUND)):
